@@ -8,5 +8,5 @@ type traceEv struct{}
 type tracer struct{}
 
 func startTrace(mode string, r *rt.Runtime) *tracer { return nil }
-func (tr *tracer) stop() []traceEv                    { return nil }
-func (tr *tracer) host(kind string, r *rt.Runtime)    {}
+func (tr *tracer) stop() []traceEv                  { return nil }
+func (tr *tracer) host(kind string, r *rt.Runtime)  {}
